@@ -222,8 +222,16 @@ void CommonLoop::onSignal()
                 //LogTrace("signo:%d", signo);
                 auto iter = all_signals_subscribers_.find(signo);
                 if (iter != all_signals_subscribers_.end()) {
-                    auto todo = iter->second;   //!FIXME:Crash if SignalSubscribuer be deleted in callback
+                    auto todo = iter->second;
                     for (auto s : todo) {
+                        //! 前面的回调可能已经退订或删除了该订阅者，调用前必须重新确认
+                        auto live_iter = all_signals_subscribers_.find(signo);
+                        if (live_iter == all_signals_subscribers_.end())
+                            break;
+
+                        if (live_iter->second.count(s) == 0)
+                            continue;
+
                         s->onSignal(signo);
                     }
                 }
